@@ -374,9 +374,9 @@ def bounded_scipy_instance():
     from pb_bss.distribution import complex_circular_symmetric_gaussian as cg, complex_angular_central_gaussian as ca
 
     def make(B):
-        kind = B.choose('kind', ['full', 'diagonal', 'spherical', 'vmf', 'ccsg', 'watson-int', 'bingham-form', 'cacg-int', 'bingham-logpdf', 'bingham-logpdf', 'cacg-scale'])
+        kind = B.choose('kind', ['full', 'diagonal', 'spherical', 'diagonal', 'spherical', 'vmf', 'ccsg', 'watson-int', 'bingham-form', 'cacg-int', 'bingham-logpdf', 'bingham-logpdf', 'cacg-scale'])
         # (feature vectors of hundreds of dimensions are ordinary for the Gaussian stream: spectra, embeddings)
-        D = B.choose('D', [1, 2, 3, 5, 8, 64, 513] if kind in ('full', 'diagonal', 'spherical') else [2, 3, 4, 6])
+        D = B.choose('D', [1, 2, 3, 5, 8, 64, 513, 513] if kind in ('full', 'diagonal', 'spherical') else [2, 3, 4, 6])
         lead = B.choose('lead', [(), (2,), (3, 2)])
         seed = B.choose('seed', list(range(1000)))
         return {'kind': kind, 'D': D, 'lead': tuple(lead), 'seed': seed, 'dummy': B.given('dummy', np.zeros(1))}
